@@ -140,16 +140,22 @@ void h_mime_unit(void)
 
 /* ---------- log_quoted_string ---------- */
 #if defined(T_QS_SAFE)
+/* The caller (Format::assemble, LOG_QUOTE_QUOTES) hands log_quoted_string a buffer of at least 2*strlen+1 bytes.
+ * Modelled as a fixed array of 2*N bytes whose bytes behind the first 2*len+1 are guard bytes 0x5A (a block of symbolic
+ * size makes CBMC's array theory explode here): the function must terminate its output inside the 2*len+1 bytes and leave
+ * every guard byte intact (ghost index) -- a write past 2*len+1, including a stray terminator, changes a guard byte. */
 void h_qs_safe(void)
 {
     char in[N];
     any_string(in);
-    char *out = malloc(2 * g_len + 1);          /* exactly what the caller (Format::assemble) guarantees at least */
-    __CPROVER_assume(out != NULL);
+    char out[2 * N];
+    for (size_t k = 0; k < 2 * N; k++) { char junk; out[k] = k < 2 * g_len + 1 ? junk : 0x5A; }
     g_out0 = out;
     log_quoted_string(in, out);
     size_t lr = strlen(out);
     __CPROVER_assert(lr <= 2 * g_len, "ensures: output is NUL-terminated within 2*len+1 bytes");
+    __CPROVER_assert(!(g >= 2 * g_len + 1 && g < 2 * N) || (unsigned char)out[g] == 0x5A,
+                     "ensures: nothing is written behind the first 2*len+1 bytes of the buffer (guard bytes intact, ghost index)");
 #ifdef TWIN_QS_ALPHABET
     __CPROVER_assert(!(g < lr) || out[g] == '\r' || out[g] == '\n' || out[g] == '\t', "ensures: TWIN (negated) no raw line break");
 #else
